@@ -266,3 +266,39 @@ def consume(eng, seq, label, vars, invariant, body, state=(), kname="_k"):
     v[kname] = eng.snum(seq.nz(), "int")
     for _, val in _clauses(eng, invariant, v, old, "inv"):
         eng.assume(val)
+
+
+def comprehension_hook(eng, node, fr, kind, first):
+    """contract option `comprehension_hook=ext_C19.comprehension_hook` (+ `comprehension_rule=dict(kind=.., invariant=[..],
+    label=..)`): a FILTERED list comprehension `[elt for target in [enumerate](lazy sequence) if cond ...]` is a loop
+        out = [];  for target in ...: if cond: out.append(elt)
+    over a lazy sequence; it is cut at the rule's invariant (clauses over the carrier's variables, `_k` = number of items
+    consumed, `__out__` = the list built so far) by the consumer rule above.  The conditions and the element run as real code."""
+    c = eng.cur_contract
+    rule = c.options.get("comprehension_rule") if c is not None else None
+    gens = node.generators
+    if rule is None or kind != "list" or len(gens) != 1:
+        raise Unsupported("filtered / nested comprehension over a symbolic sequence (no comprehension_rule in the contract)")
+    src, start, enum = first, 0, False
+    if isinstance(src, models._Enum):
+        src, start, enum = src.seq, src.start, True
+    if _has_repo_iter(eng, src):
+        src = eng.call(eng.getattr_(src, "__iter__"), [], {})
+    if not isinstance(src, LazySeq):
+        raise Unsupported("comprehension rule: the source is not a lazy sequence")
+    out = PList.fresh(rule["kind"], n=z3.IntVal(0), name="out")
+    g = gens[0]
+
+    def body(e, k, item):
+        sub = Frame(parent=fr, globs=fr.globs, func=fr.func)
+        e.assign(g.target, (e.snum(k.z + start, "int"), item) if enum else item, sub)
+        for cond in g.ifs:
+            if not e.branch(e.truth(e.ev(cond, sub))):
+                return
+        models.LIST_METHODS["append"](e, out, [e.ev(node.elt, sub)], {})
+
+    eng.cur_frame = fr
+    vars = eng.visible_vars()
+    vars["__out__"] = out
+    consume(eng, src, f"{(eng.cur_key or '?').split(':')[-1]}/{rule.get('label', 'comprehension')}", vars, rule["invariant"], body, state=[out])
+    return out
